@@ -300,19 +300,9 @@ pub fn show_ivs(ivs: &[Vec<u8>]) -> String {
 /// Algorithm 2.B table for the model: every (password, salt, udata) the code can hash for this
 /// encryption dictionary and these candidate passwords — computed by the reference.
 pub fn h2b_table(rev: i64, o: &[u8], u: &[u8], pws: &[Vec<u8>]) -> String {
-    if rev != 6 || o.len() != 48 || u.len() != 48 { return "0".into(); }
-    let mut rows = vec![];
-    let mut seen = std::collections::BTreeSet::new();
-    for pw in pws {
-        for pw in [pw.clone(), pw.iter().take(127).cloned().collect::<Vec<u8>>()] {
-            for (salt, ud) in [(&u[32..40], &[][..]), (&u[40..48], &[][..]), (&o[32..40], &u[..]), (&o[40..48], &u[..])] {
-                if !seen.insert((pw.clone(), salt.to_vec(), ud.to_vec())) { continue; }
-                let out = rf::alg2b(6, &pw, salt, ud);
-                rows.push(format!("{} {} {} {}", hex_tok(&pw), hex_tok(salt), hex_tok(ud), hex_tok(&out)));
-            }
-        }
-    }
-    format!("{} {}", rows.len(), rows.join(" ")).trim_end().to_string()
+    // Algorithm 2.B is now part of the Lean model itself: no results are shipped any more
+    let _ = (rev, o, u, pws);
+    "0".into()
 }
 
 /// the password bytes the real code feeds its algorithms (`PasswordAlgorithm::sanitize_password` is public)
@@ -321,7 +311,18 @@ pub fn sanitize(enc_doc: &Document, pw: &str) -> Option<Vec<u8>> {
     alg.sanitize_password(pw).ok()
 }
 
-pub struct Encrypted { pub state: EncryptionState, pub doc: Document, pub ivs: Vec<Vec<u8>>, pub owner_b: Vec<u8>, pub user_b: Vec<u8> }
+pub struct Encrypted { pub state: EncryptionState, pub doc: Document, pub ivs: Vec<Vec<u8>>, pub owner_b: Vec<u8>, pub user_b: Vec<u8>,
+    /// whether the hashing requests of this case (c5_mkstate / c5_decdoc) are sent to the model: always, except
+    /// for revision 6 beyond a per-run budget — the model runs the full Algorithm 2.B in Lean (about 0.2 s a hash)
+    pub full_model: bool }
+
+/// budget of revision-6 cases whose hashing requests go to the Lean model (all R2–R5 cases do)
+pub fn r6_model_budget(c: &mut Ctx, rev: i64, key: &str) -> bool {
+    if rev != 6 { return true; }
+    let used = *c.counters.get(key).unwrap_or(&0);
+    if used >= c.n(6, 40) { c.count(&format!("{}.skipped", key)); return false; }
+    c.count(key); true
+}
 
 /// real `try_from` + `encrypt`; records the `c5_mkstate` / `c5_encdoc` correspondences
 pub fn encrypt_real(c: &mut Ctx, cfg: &Config, orig: &Document) -> Result<Encrypted, String> {
@@ -348,10 +349,13 @@ pub fn encrypt_real(c: &mut Ctx, cfg: &Config, orig: &Document) -> Result<Encryp
         (vec![], state.user_value()[32..48].to_vec(), state.owner_value()[32..48].to_vec(), pr[12..16].to_vec())
     } else if rev >= 3 { (state.user_value()[16..32].to_vec(), vec![], vec![], vec![]) } else { (vec![], vec![], vec![], vec![]) };
     let tbl = h2b_table(rev, state.owner_value(), state.user_value(), &[owner_b.clone(), user_b.clone()]);
-    c.corr(format!("c5_mkstate {} {} {} {} {} {} {}", cfg.show(&owner_b, &user_b), hex_tok(&rf::file_id0(orig)),
-        hex_tok(&u_tail), hex_tok(&u_salts), hex_tok(&o_salts), hex_tok(&perms_rnd), tbl), format!("ok {}", show_state(&state)));
+    let full_model = r6_model_budget(c, rev, "r6.model_cases");
+    if full_model {
+        c.corr(format!("c5_mkstate {} {} {} {} {} {} {}", cfg.show(&owner_b, &user_b), hex_tok(&rf::file_id0(orig)),
+            hex_tok(&u_tail), hex_tok(&u_salts), hex_tok(&o_salts), hex_tok(&perms_rnd), tbl), format!("ok {}", show_state(&state)));
+    }
     c.corr(format!("c5_encdoc {} {} {}", show_state(&state), show_doc(orig), show_ivs(&ivs)), format!("ok {}", show_doc(&doc)));
-    Ok(Encrypted { state, doc, ivs, owner_b, user_b })
+    Ok(Encrypted { state, doc, ivs, owner_b, user_b, full_model })
 }
 
 /// real `decrypt(password)` on a clone; records the `c5_decdoc` correspondence (with the sanitised bytes)
@@ -371,10 +375,10 @@ pub fn decrypt_real2(c: &mut Ctx, e: &Encrypted, pw: &str, extra_tbl: &[Vec<u8>]
     let tbl = h2b_table(e.state.revision(), e.state.owner_value(), e.state.user_value(), &pws);
     let req = format!("c5_decdoc {} {} {}", show_doc(&e.doc), hex_tok(&pw_b), tbl);
     match res {
-        Ok(Ok(())) => { c.corr(req, format!("ok {}", show_doc(&d))); Ok(d) }
+        Ok(Ok(())) => { if e.full_model { c.corr(req, format!("ok {}", show_doc(&d))); } Ok(d) }
         Ok(Err(err)) => {
             let cls = err_class(&err);
-            c.corr(req, format!("err {}", cls));
+            if e.full_model { c.corr(req, format!("err {}", cls)); }
             if check_unchanged && show_doc(&d) != show_doc(&e.doc) {
                 c.oracle_fail("failed-decrypt-mutated", "decrypt returned an error but changed the document", json!({"password": pw, "error": cls}));
             }
@@ -439,6 +443,117 @@ fn unrepresentable_cases(c: &mut Ctx) {
     }
 }
 
+
+// ------------------------------------------------------------------ object streams: re-expanded by decrypt_raw
+fn ser(o: &Object, out: &mut Vec<u8>) {
+    match o {
+        Object::Null => out.extend_from_slice(b"null"),
+        Object::Boolean(b) => out.extend_from_slice(if *b { b"true" } else { b"false" }),
+        Object::Integer(i) => out.extend_from_slice(i.to_string().as_bytes()),
+        Object::Name(n) => { out.push(b'/'); out.extend_from_slice(n); }
+        Object::String(s, _) => { out.push(b'('); out.extend_from_slice(s); out.push(b')'); }
+        Object::Array(a) => { out.push(b'['); for (i, x) in a.iter().enumerate() { if i > 0 { out.push(b' '); } ser(x, out); } out.push(b']'); }
+        Object::Dictionary(d) => { out.extend_from_slice(b"<<"); for (k, v) in d.iter() { out.push(b'/'); out.extend_from_slice(k); out.push(b' '); ser(v, out); } out.extend_from_slice(b">>"); }
+        Object::Reference((n, g)) => out.extend_from_slice(format!("{} {} R", n, g).as_bytes()),
+        _ => out.extend_from_slice(b"null"),
+    }
+}
+fn gen_member(r: &mut Rng, depth: usize) -> Object {
+    match r.below(if depth >= 2 { 5 } else { 7 }) {
+        0 => Object::Integer(r.range(-99, 9999)),
+        1 => Object::Name(r.pick(&[&b"A"[..], b"Font", b"Page", b"K1"]).to_vec()),
+        2 => Object::String((0..r.usize(12)).map(|_| b'a' + r.below(26) as u8).collect(), StringFormat::Literal),
+        3 => Object::Reference((1 + r.below(20) as u32, 0)),
+        4 => if r.chance(1, 2) { Object::Null } else { Object::Boolean(r.chance(1, 2)) },
+        5 => Object::Array((0..r.usize(4)).map(|_| gen_member(r, depth + 1)).collect()),
+        _ => { let mut d = Dictionary::new(); for k in [&b"K"[..], b"T", b"V"].iter().take(r.usize(4)) { d.set(k.to_vec(), gen_member(r, depth + 1)); } Object::Dictionary(d) }
+    }
+}
+/// an unfiltered `/Type /ObjStm` stream holding `members`; `damage` selects a malformation
+fn make_objstm(members: &[(u32, Object)], damage: u64) -> Object {
+    let mut bodies: Vec<Vec<u8>> = vec![];
+    for (_, o) in members { let mut b = vec![]; ser(o, &mut b); bodies.push(b); }
+    let mut index = String::new(); let mut off = 0usize;
+    for (i, (id, _)) in members.iter().enumerate() {
+        let shown_off = if damage == 3 && i == 0 { 100000 } else { off };
+        if damage == 4 && i == 1 { index.push_str(&format!("x{} {} ", id, shown_off)); } else { index.push_str(&format!("{} {} ", id, shown_off)); }
+        off += bodies[i].len() + 1;
+    }
+    let mut content = index.clone().into_bytes();
+    for b in &bodies { content.extend_from_slice(b); content.push(b' '); }
+    let mut d = Dictionary::new();
+    d.set("Type", Object::Name(b"ObjStm".to_vec()));
+    if damage != 2 { d.set("N", Object::Integer(members.len() as i64)); }
+    d.set("First", Object::Integer(if damage == 1 { content.len() as i64 + 50 } else { index.len() as i64 }));
+    if damage == 5 { content.clear(); }
+    Object::Stream(Stream::new(d, content))
+}
+
+fn objstm_cases(c: &mut Ctx) {
+    let n = c.n(60, 600);
+    for i in 0..n {
+        let Some(mut r) = c.case("objstm", i) else { continue };
+        let cfg = { let mut cfg = gen_config(&mut r, None); if cfg.is_r6ish() && r.chance(1, 2) { cfg = gen_config(&mut r, Some(Ver::V4)); } cfg };
+        let mut orig = gen_doc(&mut r, &GenOpts { stream_dict_strings: true, nested_streams: false, meta_dicts: false, bad_length: false });
+        let existing: Vec<ObjectId> = orig.objects.keys().cloned().collect();
+        let n_cont = 1 + r.usize(2);
+        let mut expected_new: BTreeMap<ObjectId, Object> = BTreeMap::new();   // what the re-expansion must add
+        let mut well_formed = true;
+        let mut next_id = orig.max_id + 1;   // the Encrypt object takes max_id + 1: keep containers below / above deliberately
+        let mut conts = vec![];
+        for _ in 0..n_cont {
+            let mut members: Vec<(u32, Object)> = vec![];
+            for _ in 0..1 + r.usize(4) {
+                let id = match r.below(5) {
+                    0 => r.pick(&existing).0,                       // already present: must NOT be replaced
+                    1 => orig.max_id + 1,                           // the number the Encrypt object takes: not inserted, gone afterwards
+                    _ => { next_id += 1 + r.below(2) as u32; next_id }
+                };
+                members.push((id, gen_member(&mut r, 0)));
+            }
+            if r.chance(1, 6) && members.len() > 1 { let dup = members[0].0; members.last_mut().unwrap().0 = dup; }   // number listed twice: last wins
+            let damage = if r.chance(1, 4) { 1 + r.below(5) } else { 0 };
+            if damage != 0 { well_formed = false; }
+            conts.push((members, damage));
+        }
+        // containers get ids above everything else; max_id stays the largest non-member id so that the Encrypt id can collide with a member
+        let mut cid = next_id + 5;
+        // members always have generation 0: an existing object with the same number but another generation does not block them
+        let mut claimed: std::collections::BTreeSet<ObjectId> = existing.iter().cloned().collect();
+        claimed.insert((orig.max_id + 1, 0));
+        for (members, damage) in &conts {
+            cid += 1;
+            orig.objects.insert((cid, 0), make_objstm(members, *damage));
+            if *damage == 0 {
+                // BTreeMap of one container: the last entry of a repeated number wins; across containers the first container wins
+                let mut one: BTreeMap<u32, Object> = BTreeMap::new();
+                for (id, o) in members { one.insert(*id, o.clone()); }
+                for (id, o) in one { if !claimed.contains(&(id, 0)) { claimed.insert((id, 0)); expected_new.insert((id, 0), o); } }
+            }
+        }
+        let case = json!({"config": format!("{:?}", cfg), "doc": show_doc(&orig)});
+        c.count(if well_formed { "objstm.well_formed" } else { "objstm.damaged" });
+        let e = match encrypt_real(c, &cfg, &orig) { Ok(e) => e, Err(w) => { c.oracle_fail("encrypt-failed", &w, case); continue } };
+        match decrypt_real(c, &e, &cfg.user, &[]) {
+            Ok(d) => {
+                for (id, o) in orig.objects.iter() {
+                    match d.objects.get(id) { Some(x) if same_mod_length(o, x) => {}, other => { c.oracle_fail("objstm-original-changed", &format!("object {:?}: {} became {:?}", id, show_obj(o), other.map(show_obj)), case.clone()); break; } }
+                }
+                if well_formed {
+                    for (id, o) in &expected_new {
+                        match d.objects.get(id) { Some(x) if show_obj(x) == show_obj(o) => c.count("objstm.member_added"), other => { c.oracle_fail("objstm-member-missing", &format!("member {:?} = {} of a decrypted object stream: got {:?}", id, show_obj(o), other.map(show_obj)), case.clone()); break; } }
+                    }
+                    let extra: Vec<_> = d.objects.keys().filter(|k| !orig.objects.contains_key(k) && !expected_new.contains_key(k)).collect();
+                    if !extra.is_empty() { c.oracle_fail("objstm-unexpected-object", &format!("{:?}", extra), case.clone()); }
+                }
+                if d.is_encrypted() { c.oracle_fail("encrypt-entry-left", "", case.clone()); }
+                c.nontrivial(&show_doc(&e.doc));
+            }
+            Err(cls) => c.oracle_fail("user-password-rejected", &cls, case.clone()),
+        }
+    }
+}
+
 fn pick_wrong(r: &mut Rng, cfg: &Config) -> String {
     loop {
         let w = match r.below(4) { 0 => String::new(), 1 => format!("{}x", cfg.user), 2 => "wrong".to_string(), _ => cfg.owner.chars().rev().collect::<String>() + "!" };
@@ -478,6 +593,7 @@ strings and streams, Metadata / XRef / Crypt-override streams, Metadata dictiona
         one_case(c, &mut r, &cfg, &orig, i % 3 == 0);
     }
     unrepresentable_cases(c);
+    objstm_cases(c);
     witnesses(c);
 }
 
